@@ -1,25 +1,38 @@
 """C08: iterative (Dykstra) projection keeps feasible weights, converges to the L2-nearest point.
 Tie: lattice_lib.project_by_dykstra vs Tfl.Lat.projectByDykstraT (per family and combined, joint
 unimodality included: every (vertex, offsets) hyperplane group of the real loop is a group of the model).
+The `last_change` dict of the real loop is keyed by (family, constraint, group): constraint tuples listed
+twice share their slots; the model does the same (Tfl.Lat.slots) and is compared at small iteration counts.
 Oracle: feasible => unchanged; violation -> 0 as iterations grow; re-projection of a converged
 result does not move it; for the exactly projected families the limit equals the QP optimum
-(scipy SLSQP; labelled a TEST in DESIGN.md: convergence itself is not a theorem); PWL iterative
-projection: feasible unchanged, monotonicity+bounds = QP optimum."""
+(scipy SLSQP on the REAL outputs; the model-side convergence theorems are in Props/C08*.lean); PWL
+iterative projection: feasible unchanged, monotonicity+bounds = QP optimum."""
 import itertools
 import numpy as np
 from fractions import Fraction
 from common import *
 from props import c01
 
+RULE_MULTI = (" Constraint LISTS (the `last_change` dict of project_by_dykstra is keyed by (family, constraint, group)): every "
+              "family's constraint listed twice / three times (shared slots), two DIFFERENT constraints of one family "
+              "(separate slots), two joint unimodalities on the same dims with equal / opposite directions and with "
+              "permuted dims; model vs real at 1,2,3,5 iterations and the convergence oracle on each class. (d,d) "
+              "dominance / joint-monotonicity pairs wherever verify_hyperparameters accepts them (oracle only: a kernel "
+              "that does not depend on feature d must stay unchanged, no exception). Joint unimodality directions "
+              "in every accepted spelling ('valley', 'Valley', 'PEAK', ...).")
 RULE = ("lattice configs (rank 1-3, sizes 2-4, <= 36 vertices, units 1-2) with single and combined constraint "
         "families {monotonicity, unimodality, Edgeworth, trapezoid, monotonic dominance, range dominance, joint "
         "monotonicity, joint unimodality (1-3 jointly unimodal dims of size >= 3, valley / peak; alone and combined "
         "with the other families wherever verify_hyperparameters accepts the combination)}; iterations {0,1,2,5,50}; kernels dyadic/int/wide/feasible. Non-trivial = the projection "
         "moved the kernel, or the kernel was feasible; distinct = (family set, iterations, kind, moved, hash). "
-        "Convergence / nearest-point cases: 2000 iterations vs scipy SLSQP on <= 16 vertices.")
+        "Convergence / nearest-point cases: 2000 iterations vs scipy SLSQP on <= 16 vertices." + RULE_MULTI)
 ASSUMPTIONS = ["float64; model comparison rtol 1e-9*scale",
-               "convergence of Dykstra's algorithm (Boyle-Dykstra 1986) is NOT proved; the nearest-point and "
+               "convergence is PROVED on the model for configurations without range dominance: Props/C08.lean when no "
+               "last_change key repeats, Props/C08Shared.lean also for constraint tuples listed twice (shared slots: "
+               "Hundal-Deutsch's variant); on the REAL code, and for range dominance, the nearest-point and "
                "violation->0 clauses are tested against a QP solver with tolerance 2e-4*scale",
+               "(d,d) dominance / joint-monotonicity pairs are not modelled (the real projection reads axis d+1 or "
+               "raises: finding F-C08-c, repair repo_patches/F-C08-c.diff)",
                "joint_unimodalities: modelled (Tfl.Lat.hyperplaneGroup); combined configurations are generated only where "
                "lattice_lib.verify_hyperparameters accepts them; LatticeConstraints with joint unimodalities is compared "
                "non-strict and strict (the strict finalisation ignores joint unimodality in code and model alike)"]
@@ -106,6 +119,103 @@ def add_joint_unimodality(rng, cfg):
   rest = [d for d in free if d not in dims and sizes[d] >= 3]
   if rest and rng.random() < 0.2:
     cfg["ju"].append(((rng.choice(rest),), rng.choice(["valley", "peak"])))
+
+
+MULTI_MODES = ["dup:ew", "dup:tz", "dup:md", "dup:rd", "dup:jm", "dup:ju", "two:ew", "two:tz", "two:md", "two:rd",
+               "two:jm", "two:ju", "ju_same", "ju_opp", "ju_perm"]
+
+
+def gen_multi(rng, mode, max_vertices=27, max_ju_dims=3):
+  """Configurations whose constraint LISTS matter for the `last_change` dict of project_by_dykstra:
+  dup:<fam>  one constraint of the family listed twice (sometimes three times): identical dict keys, shared slots;
+  two:<fam>  two different constraints of the family: different keys, separate slots;
+  ju_same / ju_opp / ju_perm  two joint unimodalities on the same dims with equal / opposite direction / the dims
+  permuted (keys differ by direction since /repo 4b9511c, and by the order of the dims).
+  Returns (cfg, fams) or None when the shape cannot host the mode."""
+  kind, _, fam = mode.partition(":")
+  for _ in range(50):
+    rank = rng.choice([2, 2, 3])
+    lo_size = 3 if (fam == "ju" or kind.startswith("ju")) else 2
+    sizes = [rng.randint(lo_size, 3 if rank == 3 else 4) for _ in range(rank)]
+    if int(np.prod(sizes)) > max_vertices:
+      continue
+    cfg = dict(sizes=sizes, mono=[0] * rank, ew=[], tz=[], uni=[0] * rank, md=[], rd=[], jm=[], ju=[], lo=None, hi=None)
+    dims = list(range(rank))
+    rng.shuffle(dims)
+    reps = 3 if rng.random() < 0.2 else 2
+    dr = lambda: rng.choice([1, -1])
+    vp = lambda: rng.choice(["valley", "peak"])
+    if kind.startswith("ju") or fam == "ju":
+      k = rng.choice([1, 2, 2]) if rank == 2 else rng.choice([1, 2, 2, 3])
+      k = min(k, max_ju_dims)
+      if kind == "ju_perm":
+        k = max(k, 2)
+      if int(np.prod(sizes)) > 18 and k >= 2:
+        continue      # hundreds of hyperplane groups per pass
+      jd = tuple(dims[:k])
+      d0 = vp()
+      if kind == "ju_same" or kind == "dup":
+        cfg["ju"] = [(jd, d0)] * (reps if kind == "dup" else 2)
+      elif kind == "ju_opp":
+        cfg["ju"] = [(jd, d0), (jd, "peak" if d0 == "valley" else "valley")]
+      elif kind == "ju_perm":
+        pd = list(jd)
+        while tuple(pd) == jd:
+          rng.shuffle(pd)
+        cfg["ju"] = [(jd, d0), (tuple(pd), d0 if rng.random() < 0.6 else vp())]
+      else:           # two different constraints: overlapping or disjoint dims
+        other = tuple(rng.sample(dims, rng.choice([1, 2]) if rank >= 2 else 1))
+        if set(other) == set(jd) and len(other) == len(jd):
+          continue
+        cfg["ju"] = [(jd, d0), (other, vp())]
+      free = [d for d in range(rank) if not any(d in c[0] for c in cfg["ju"])]
+      for d in free:
+        if rng.random() < 0.5:
+          cfg["mono"][d] = 1
+      return cfg, ([kind] if kind.startswith("ju") else [kind, "ju"])
+    if fam in ("ew", "tz"):
+      m = dims[0]
+      cfg["mono"][m] = 1
+      if kind == "dup":
+        cons = [(m, dims[1], dr())] * reps
+      elif rank >= 3 and rng.random() < 0.5:
+        cons = [(m, dims[1], dr()), (m, dims[2], dr())]          # one main, two conditional features
+      elif rank >= 3:
+        cfg["mono"][dims[1]] = 1
+        cons = [(m, dims[2], dr()), (dims[1], dims[2], dr())]    # two mains, one conditional feature
+      else:
+        continue
+      cfg[fam] = cons
+      if rng.random() < 0.4:
+        other = "tz" if fam == "ew" else "ew"
+        cfg[other] = [cons[0]]
+      return cfg, [kind, fam] + (["tz" if fam == "ew" else "ew"] if cfg["tz" if fam == "ew" else "ew"] else [])
+    if fam in ("md", "rd"):
+      a, b = dims[0], dims[1]
+      cfg["mono"][a] = cfg["mono"][b] = 1
+      if kind == "dup":
+        cons = [(a, b)] * reps
+      elif rank >= 3:
+        c = dims[2]
+        cfg["mono"][c] = 1
+        cons = rng.choice([[(a, b), (a, c)], [(a, b), (c, b)], [(a, b), (b, c)]])
+      else:
+        continue
+      cfg[fam] = cons
+      return cfg, [kind, fam]
+    if fam == "jm":
+      a, b = dims[0], dims[1]
+      if kind == "dup":
+        cons = [(a, b)] * reps
+      elif rank >= 3 and rng.random() < 0.6:
+        cons = rng.choice([[(a, b), (a, dims[2])], [(a, b), (dims[2], b)]])
+      else:
+        cons = [(a, b), (b, a)]        # the same constraint set under two different dict keys
+      cfg["jm"] = cons
+      if rng.random() < 0.3:
+        cfg["mono"][rng.choice(dims)] = 1
+      return cfg, [kind, "jm"]
+  return None
 
 
 def accepted(cfg):
@@ -391,9 +501,13 @@ def run(ctx):
     wf = np.array([[float(v) for v in row] for row in w])
     convergence_case(ctx, cfg, fams, kind, w, wf)
   # ---- (3) joint unimodality: cone fixpoint / re-projection oracle, LatticeConstraints correspondence
-  for _ in range(ctx.n(6, 60)):
-    joint_unimodality_case(ctx, rng)
+  for i in range(ctx.n(6, 60)):
+    joint_unimodality_case(ctx, rng, spelled=(i % 3 == 2))
   layer_cases(ctx, rng)
+  # ---- (3b) constraint lists: repeated / several constraints of one family (the last_change dict keys)
+  multi_cases(ctx, rng)
+  multi_convergence(ctx, rng)
+  self_pair_cases(ctx, rng)
   # ---- (4) PWL iterative projection
   for _ in range(ctx.n(40, 600)):
     pwl_case(ctx, rng)
@@ -506,18 +620,29 @@ def strict_call(cfg, wf, iters):
   return tf.function(lambda w: cons(w))(tf.constant(wf, dtype=tf.float64)).numpy()
 
 
-def joint_unimodality_case(ctx, rng):
-  rank = rng.choice([2, 2, 3])
-  sizes = [rng.choice([3, 3, 4]) for _ in range(rank)]
-  dims = rng.sample(range(rank), 2)
-  direction = rng.choice(["valley", "peak"])
-  jus = [(tuple(dims), direction)]
+def joint_unimodality_case(ctx, rng, spelled=False, fixed=None):
+  """`spelled`: the direction in another spelling verify_hyperparameters accepts (it lower-cases the string:
+  'Valley', 'PEAK', ...); the constraint meant is the lower-cased one."""
+  if fixed is not None:
+    sizes, dims, spelling = fixed
+    rank = len(sizes)
+  else:
+    rank = rng.choice([2, 2, 3])
+    sizes = [rng.choice([3, 3, 4]) for _ in range(rank)]
+    dims = rng.sample(range(rank), 2)
+    spelling = rng.choice(["Valley", "VALLEY", "Peak", "PEAK", "vAlley"]) if spelled else rng.choice(["valley", "peak"])
+  direction = spelling.lower()
+  jus = [(tuple(dims), spelling)]
   cfg = dict(sizes=sizes, mono=[0] * rank, ew=[], tz=[], uni=[0] * rank, md=[], rd=[], jm=[], lo=None, hi=None)
   n = int(np.prod(sizes))
-  key = dict(suite="joint_unimodality", fams="ju", kind="dyadic")
+  key = dict(suite="joint_unimodality", fams="ju", kind="dyadic", spelling="lower" if spelling == direction else "other")
   w = [[gen_value(rng, "dyadic")] for _ in range(n)]
   wf = np.array([[float(v) for v in row] for row in w])
-  case = dict(cfg=cfg, jus=[[list(dims), direction]], w=w, iters=1000, fams=["ju"], kind="dyadic")
+  case = dict(cfg=cfg, jus=[[list(dims), spelling]], w=w, iters=1000, fams=["ju"], kind="dyadic")
+  if not accepted(dict(cfg, ju=jus)):
+    ctx.count("ju_spelling_rejected")
+    return
+  ctx.count("ju_spelling:" + key["spelling"])
   try:
     out = real_dykstra(cfg, wf, 1000, jus, graph=True)
     again = real_dykstra(cfg, out, 1000, jus, graph=True)
@@ -526,17 +651,132 @@ def joint_unimodality_case(ctx, rng):
     sign = 1.0 if direction == "valley" else -1.0
     cone = np.array([[sign * sum(abs(i[d] - centre[d]) for d in dims)]
                      for i in itertools.product(*[range(s) for s in sizes])], dtype=np.float64)
-    fixed = real_dykstra(cfg, cone, 7, jus)
+    fixed_out = real_dykstra(cfg, cone, 7, jus)
   except Exception as e:
     ctx.fail("raises", key, case, classify_exc(e) + ": " + str(e)[:200])
     return
-  ctx.case(sig=("ju", tuple(sizes), tuple(dims), direction, hash(wf.tobytes()) % 9973), sample=case)
+  ctx.case(sig=("ju", tuple(sizes), tuple(dims), spelling, hash(wf.tobytes()) % 9973), sample=case)
   ctx.count("conv:ju")
   scale = max_abs(wf.ravel())
   if float(np.max(np.abs(again - out))) > 2e-4 * scale:
     ctx.fail("reprojection", key, case, float(np.max(np.abs(again - out))))
-  if float(np.max(np.abs(fixed - cone))) > 1e-9:
-    ctx.fail("fixpoint", key, case, fixed, "feasible cone kernel moved")
+  if float(np.max(np.abs(fixed_out - cone))) > 1e-9:
+    ctx.fail("fixpoint", key, case, fixed_out, "feasible cone kernel (a %s) moved" % direction)
+  viol = full_violation(dict(cfg, ju=[(tuple(dims), direction)]), out[:, 0].reshape(sizes))
+  if viol > 2e-4 * scale:
+    ctx.fail("violation_to_zero", key, case, viol, "violation of the %s constraint after 1000 iterations" % direction)
+
+
+def multi_cases(ctx, rng):
+  """Correspondence at small iteration counts on configurations with repeated / several constraints of one
+  family: the real `last_change` dict vs the model's slots (`Tfl.Lat.slots`)."""
+  lines, pending = [], []
+  for i in range(ctx.n(45, 600)):
+    mode = MULTI_MODES[i % len(MULTI_MODES)]
+    g = gen_multi(rng, mode)
+    if g is None:
+      continue
+    cfg, fams = g
+    if not accepted(cfg):
+      ctx.count("multi_rejected:" + mode)
+      continue
+    n = int(np.prod(cfg["sizes"]))
+    units = rng.choice([1, 1, 1, 2])
+    kind = rng.choice(["dyadic", "dyadic", "int"])
+    w = [[gen_value(rng, kind) for _ in range(units)] for _ in range(n)]
+    iters = rng.choice([1, 2, 3, 5])
+    wf = np.array([[float(v) for v in row] for row in w])
+    try:
+      out, err = real_dykstra(cfg, wf, iters), None
+    except Exception as e:
+      out, err = None, classify_exc(e) + ": " + str(e)[:200]
+    for u in range(units):
+      lines.append(model_line(cfg, [w[i][u] for i in range(n)], iters))
+    ctx.count("multi:" + mode)
+    pending.append((dict(cfg=cfg, kind=kind, iters=iters, w=w, fams=fams), wf, out, err, units))
+  finish(ctx, lines, pending)
+
+
+def multi_convergence(ctx, rng):
+  """The convergence / re-projection / nearest-point oracle on the same classes (a repeated constraint shares
+  its roll-back tensor between its visits: Hundal-Deutsch's loop; proved for the model in Props/C08Shared.lean,
+  tested here on the real code; a key that wrongly merges DIFFERENT constraints does not converge: 4b9511c)."""
+  quick = ctx.tier == "quick"
+  plain = [m for m in MULTI_MODES if "ju" not in m]
+  start = rng.randrange(len(plain))
+  for i in range(ctx.n(6, 24)):
+    # the 4b9511c class (valley + peak on the same dims) leads every run, a repeated joint unimodality follows;
+    # quick tier: one jointly unimodal dim (few hyperplane groups, the tf.while_loop graph stays small)
+    if i == 0:
+      mode = "ju_opp"
+    elif i == 1:
+      mode = rng.choice(["dup:ju", "ju_same"])
+    elif quick or i % 3:
+      mode = plain[(start + i) % len(plain)]
+    else:
+      mode = rng.choice(["two:ju", "ju_perm", "ju_opp", "dup:ju"])
+    for _try in range(30):
+      g = gen_multi(rng, mode, max_vertices=16 if "ju" not in mode else 12, max_ju_dims=1 if quick else 2)
+      if g is not None and accepted(g[0]):
+        break
+    else:
+      continue
+    cfg, fams = g
+    n = int(np.prod(cfg["sizes"]))
+    kind = "dyadic"
+    w = [[gen_value(rng, kind)] for _ in range(n)]
+    wf = np.array([[float(v) for v in row] for row in w])
+    ctx.count("multi_conv:" + mode)
+    convergence_case(ctx, cfg, fams, kind, w, wf)
+
+
+def self_pair_kernel(rng, sizes, d):
+  """A kernel that does not depend on feature d and is non-decreasing in every other feature: feasible for any
+  monotonicity-type constraint that names only feature d (and for monotonicities on all features)."""
+  rank = len(sizes)
+  slopes = [Fraction(0) if k == d else Fraction(rng.randint(0, 6), 4) for k in range(rank)]
+  bumps = [[Fraction(0)] * sizes[k] if k == d else sorted(Fraction(rng.randint(0, 4), 4) for _ in range(sizes[k]))
+           for k in range(rank)]
+  return [[sum(slopes[k] * idx[k] + bumps[k][idx[k]] for k in range(rank))]
+          for idx in itertools.product(*[range(x) for x in sizes])]
+
+
+def self_pair_cases(ctx, rng, fixed=None):
+  """(d, d) pairs: `monotonic_dominances=[(d, d)]`, `range_dominances=[(d, d)]`, `joint_monotonicities=[(d, d)]`.
+  Where verify_hyperparameters accepts them the projection must not raise and must leave alone a kernel that
+  does not depend on feature d (oracle only; not modelled)."""
+  todo = [fixed] if fixed is not None else [None] * ctx.n(9, 45)
+  for i, fx in enumerate(todo):
+    if fx is not None:
+      fam, sizes, d = fx
+    else:
+      fam = ["md", "rd", "jm"][i % 3]
+      rank = rng.choice([2, 2, 3])
+      sizes = [rng.randint(2, 4) for _ in range(rank)]
+      d = rng.randrange(rank)
+    rank = len(sizes)
+    cfg = dict(sizes=sizes, mono=[1] * rank if fam != "jm" else [0] * rank, ew=[], tz=[], uni=[0] * rank, md=[], rd=[],
+               jm=[], ju=[], lo=None, hi=None)
+    cfg[fam] = [(d, d)]
+    key = dict(suite="self_pair", fams=fam, kind="feasible")
+    if not accepted(cfg):
+      ctx.count("self_pair_rejected:" + fam)
+      ctx.case(sig=("self_pair_rejected", fam, tuple(sizes), d))
+      continue
+    ctx.count("self_pair_accepted:" + fam)
+    w = self_pair_kernel(rng, sizes, d)
+    wf = np.array([[float(v) for v in row] for row in w])
+    case = dict(cfg=cfg, fam=fam, d=d, w=w, iters=3, fams=["self", fam], kind="feasible")
+    ctx.case(sig=("self_pair", fam, tuple(sizes), d), sample=case)
+    try:
+      out = real_dykstra(cfg, wf, 3)
+    except Exception as e:
+      ctx.fail("raises", key, case, classify_exc(e) + ": " + str(e)[:200],
+               "accepted (%d, %d) pair: the projection raises" % (d, d))
+      continue
+    mv = float(np.max(np.abs(out - wf)))
+    if mv > 1e-9 * max_abs(wf.ravel()):
+      ctx.fail("fixpoint", key, case, out, "kernel independent of feature %d moved by %g" % (d, mv))
 
 
 def layer_cases(ctx, rng):
@@ -675,5 +915,10 @@ def replay(ctx, failure):
     lines = [model_line(cfg, [w[i][u] for i in range(n)], case["iters"]) for u in range(units)]
     case["cfg"] = cfg
     finish(ctx, lines, [(case, wf, out, err, units)])
+  elif key.get("suite") == "self_pair":
+    self_pair_cases(ctx, ctx.rng, fixed=(case["fam"], list(case["cfg"]["sizes"]), case["d"]))
+  elif key.get("suite") == "joint_unimodality":
+    dims, spelling = case["jus"][0]
+    joint_unimodality_case(ctx, ctx.rng, fixed=(list(case["cfg"]["sizes"]), list(dims), spelling))
   else:
     ctx.notes.append("replay of suite %s: rerun the check with the recorded seed" % key.get("suite"))
